@@ -588,4 +588,71 @@ theorem memoised_path_witness :
     (frun (fun _ => 0) sched {}).got = [(0, none), (1, some [2])] ∧
     (frun (fun r => r) sched {}).got = [(0, some [1]), (1, some [2])] := by decide
 
+/-- **Successive executions.** The patch files of any number of executions handled one after the
+other on one cluster by the operator's single `ObjectPatcher` (any streams, any cluster, any
+history of other writers during each): every execution has exactly the outcome the property gives
+for its file on the state the executions before it left (`Spec.runs`) - nothing but the cluster
+survives from one execution to the next - and none panics. -/
+theorem successive_executions_meet_spec (pf : PatchFn) (f : Form) (runs : List (List Doc × Writers)) :
+    ∀ c : Cluster,
+    (handleSeq pf true f (runs.map (fun r => (Stream.docs r.1, r.2))) c).map
+        (fun r => (r.failed, r.executed, r.st.cluster, r.st.log))
+      = Spec.runs pf (runs.map (fun r => (false, r.1, r.2))) c
+    ∧ ∀ r ∈ handleSeq pf true f (runs.map (fun r => (Stream.docs r.1, r.2))) c, r.panicked = false := by
+  induction runs with
+  | nil => intro c; simp [handleSeq, Spec.runs]
+  | cons r rest ih =>
+    intro c
+    obtain ⟨ds, ws⟩ := r
+    have h := handle_meets_spec_any_history pf f ds c ws
+    simp only at h
+    obtain ⟨h1, h2⟩ := h
+    have hc : (handleH pf true f (.docs ds) ⟨c, []⟩ ws).st.cluster = (Spec.expectedH pf false ds c ws).2.2.1 := by
+      rw [← h1]
+    simp only [List.map_cons, handleSeq, Spec.runs]
+    obtain ⟨i1, i2⟩ := ih (handleH pf true f (.docs ds) ⟨c, []⟩ ws).st.cluster
+    refine ⟨?_, ?_⟩
+    · rw [h1, i1, hc]
+    · intro r hr
+      simp only [List.mem_cons] at hr
+      rcases hr with rfl | hr
+      · exact h2
+      · exact i2 r hr
+
+/-- Non-vacuity: execution 1 creates object 1 and patches it, execution 2 (an invalid document in
+its file) applies nothing and fails, execution 3 deletes the object: three outcomes, each on the
+state left by the one before. -/
+example :
+    let mk : Doc := ⟨true, .create false false (.good 1 true [(1, .s 1)] .f64), true⟩
+    let pt : Doc := ⟨true, .patch .merge 1 true 0 false false (some [.set 2 (.s 2)]), true⟩
+    let bad : Doc := ⟨false, .delete .background 1 true 0, true⟩
+    let del : Doc := ⟨true, .delete .background 1 true 0, true⟩
+    handleSeq concretePf true .yaml [(.docs [mk, pt], []), (.docs [del, bad], []), (.docs [del], [])] [] =
+      [⟨⟨[(1, [(2, .s 2), (1, .s 1)])], [⟨.create, 1, 0⟩, ⟨.patchMerge, 1, 0⟩]⟩, false, true, 0, false⟩,
+       ⟨⟨[(1, [(2, .s 2), (1, .s 1)])], []⟩, true, false, 0, false⟩,
+       ⟨⟨[], [⟨.delete, 1, 0⟩]⟩, false, true, 0, false⟩] := by
+  decide
+
+/-- **Every operation reaches the object it names.** Over all operations of all executions a patcher
+handles (any discovery, any sequence of coordinates - the same kind at several versions of its
+group, the same name under several kinds, omitted and explicit apiVersions): the pinned executors
+ask `GroupVersionResource` once per operation (`targets`, by definition `target` of each), and a
+patcher that remembers resolved resources is indistinguishable from them whenever its memo key
+determines group, version and kind. -/
+theorem every_operation_reaches_the_object_it_names (kf : Coord → Nat) (d : Discovery)
+    (hk : ∀ c c', kf c = kf c' → c.group = c'.group ∧ c.version = c'.version ∧ c.kind = c'.kind)
+    (cs : List Coord) : targetsMemo kf d [] cs = cs.map (target d) ∧ targets d cs = cs.map (target d) :=
+  ⟨targetsMemo_sound kf d hk cs [] (by intro c r h; simp [aget] at h), rfl⟩
+
+/-- Witness (and non-vacuity): a memo keyed by group and kind only - the version dropped - sends the
+operation on `<group>/<version 2> Kind` to the resource of version 1, remembered from the operation
+before it; one lookup per operation reaches both objects. -/
+theorem memo_by_group_kind_witness :
+    let d : Discovery := fun g v k => some (100 * g + 10 * v + k)
+    let byGroupKind : Coord → Nat := fun c => 10 * c.group + c.kind
+    let cs : List Coord := [⟨1, 1, 1, 0, 0⟩, ⟨1, 2, 1, 0, 0⟩]
+    targets d cs = [some ⟨111, 0, 0⟩, some ⟨121, 0, 0⟩] ∧
+    targetsMemo byGroupKind d [] cs = [some ⟨111, 0, 0⟩, some ⟨111, 0, 0⟩] := by
+  decide
+
 end ShellOp.Patch.C13
